@@ -266,7 +266,7 @@ def check_declaration_loop(A, R: Report, rid: str):
             where=where(fpd, bad[0]) if bad else where(fpd))
 
 
-def check_resolver_call(A, R: Report, rid: str):
+def check_resolver_call(A, R: Report, rid: str, rid9=None):
     """The name Chain._process_dependencies hands to the resolver is `<own namespace>::name` (or already prefixed), and the
     resolver is told not to guess namespaces."""
     fpd = A.func('Chain._process_dependencies')
@@ -321,6 +321,15 @@ def check_resolver_call(A, R: Report, rid: str):
         if bad and any(has_opaque(t) for t in bad):
             R.undecided(rid, 'Chain._process_dependencies: resolver call', 'the name handed to the resolver involves a construct the term engine does not interpret', where=where(fpd, c))
             continue
+        if rid9 is not None:
+            # whether a name is relative to the declaring namespace is decided from its *text*: `ns::x` declared inside `ns` may mean
+            # the task `ns::x` (absolute, e.g. produced by pattern expansion) or the task x of the inner namespace `ns::ns`
+            textual = [t for t in terms if any(x[0] == 'method' and x[2] == 'startswith' and len(x[3]) == 1 and x[3][0][0] == 'cat' and ('lit', '::') in x[3][0][1] and
+                                               any(y[0] == 'attr' and y[2] == 'namespace' for y in x[3][0][1]) for x in dag_nodes(t))]
+            R.check(not textual, rid9, 'Chain._process_dependencies: relative or absolute name', key_of('prefix-heuristic', bool(textual)), 'decided by where the name came from',
+                    'a declared input name that starts with `<own namespace>::` is taken as already qualified: inside a config mounted `as token`, the input `token::tokenize` '
+                    '(task of the inner namespace `token`) is looked up as `token::tokenize` instead of `token::token::tokenize` and construction fails with "not found"',
+                    witness=[pretty(textual[0])[:200]] if textual else None, where=where(fpd, c))
         R.check(exact and not bad, rid, 'Chain._process_dependencies: resolver call', key_of('ns-exact', exact, not bad),
                 'qualified with the own namespace, determine_namespace=False',
                 'a declared input can be resolved without the declaring config\'s namespace (or with namespace guessing): it may bind a same-named task of another namespace',
@@ -406,7 +415,8 @@ def run(A, R: Report, thorough: bool):
 
     check_declaration_loop(A, R, 'R08.2')
     R.rule('R08.6', 'the name handed to the resolver is qualified with the declaring config\'s namespace whenever it has one, and resolution is namespace-exact', floor=1)
-    check_resolver_call(A, R, 'R08.6')
+    R.rule('R08.9', 'whether a declared input name is relative to the declaring namespace does not depend on the spelling of the name', floor=1)
+    check_resolver_call(A, R, 'R08.6', 'R08.9')
 
     # ---- R08.3
     R.rule('R08.3', 'exclusions are collected before any registration; only abstract and excluded classes are skipped; single-~ patterns match the own namespace segment-wise with fullmatch', floor=3)
